@@ -3,6 +3,7 @@ import LitexProofs.Export.Roundtrip
 import LitexProofs.Export.MemImage
 import LitexProofs.Export.Soc
 import LitexProofs.Export.Adapt
+import LitexProofs.Soc.AcceptedDisjoint
 /-
   C14 — exported software maps tell the truth about the hardware.
 
@@ -22,7 +23,7 @@ import LitexProofs.Export.Adapt
   | get_csr_svd (csr.svd): registers, bases, interrupts | svdAddrsK                               | json_csv_svd_agree(_kinds), irq_export_*   | `export` S part; SVD memoryRegions/constants/interrupt: oracle |
   | CSR memories (csr_bases of windows, <mem>_page)     | sramSel, sramSelWide, wideWord/wideSub  | mem_window(_paged), wide_mem_window_paged, wide_mem_roundtrip_head | `sramsel/sramwide/wideword/widesub/sweep`; wide AND paged memories driven through their page register |
   | get_mem_header (mem.h *_BASE/_SIZE, MEM_REGIONS str) | memExport, selectedSlaves               | region_export_decoded_partial              | `slaves` call; MEM_REGIONS string: oracle |
-  | get_linker_regions (regions.ld), get_memory_x       | memExport (same triples)                | region_export_decoded_partial              | oracle: each bus region exactly once, _stext = reset address inside a region |
+  | get_linker_regions (regions.ld), get_memory_x       | ldRegions, memoryX, ldOverlap            | linker_regions_are_published_regions, region_export_decoded_partial | `ldregions` call per SoC (regions.ld text parsed) and per CPU SoC (memory.x); _stext inside a region: oracle |
   | get_linker_output_format (output_format.ld)         | -                                       | -                                          | oracle (stub CPU's format string) |
   | window -> cell behind add_master/add_slave adapters | convS2M/M2S, axil2wb, wb2axil, slaveCell| published_reaches_cell, cell_reached_only_from_its_word, adapters_transparent | `slavecell` per store of the window walk (cell observed in the slave's memory), `chainword/masterbus/adrconv` on add_adapter alone |
   | get_soc_header (soc.h), JSON/CSV/SVD constants      | addConstants                            | constants_declared_once                    | `constants`; values: oracle |
@@ -764,6 +765,48 @@ example :
       = [(0, 0, 0x300), (1, 0x400, 0x100)] ∧
     selectedSlaves 32 32 [(0, ⟨0, 0x300, true, false, true⟩), (1, ⟨0x300, 0x100, true, false, true⟩)] (0x300 / 4) = [0, 1] := by
   decide +kernel
+
+/-! ### Linker files (regions.ld, memory.x) -/
+
+omit [DecidableEq ν] in
+/-- **linker_regions_are_published_regions.**  For every bus-region table: (1) regions.ld / the MEMORY block of memory.x list
+    exactly the triples mem.h / JSON / CSV publish (nothing skipped, renamed or resized; memory.x's `_stext` is the reset address
+    it was given); (2) every linker line is a bus region with that origin and length, and its byte range starts at the base of that
+    region's decoder window and lies inside it; (3) when the table was accepted by `check_regions_overlap` (C13's `anyOverlap`,
+    imported read-only), no two linker lines of non-linker regions share a byte.  Regions flagged `linker=True` are exempt from
+    the build's overlap check and are listed all the same (negative witness below). -/
+theorem linker_regions_are_published_regions (regions : List (ν × Region)) (reset : Nat) :
+    ldRegions regions = memExport regions ∧ (memoryX regions reset) = (memExport regions, reset) ∧
+    (∀ e ∈ ldRegions regions, ∃ r, (e.1, r) ∈ regions ∧ e.2.1 = r.origin ∧ e.2.2 = r.size ∧
+        ∀ x, (e.2.1 ≤ x ∧ x < e.2.1 + e.2.2) → r.InWindow x) ∧
+    (anyOverlap (regions.map (·.2)) = false →
+      (ldRegions (regions.filter fun p => !p.2.linker)).Pairwise fun a b => ¬ ldOverlap a b) := by
+  refine ⟨rfl, rfl, ?_, ?_⟩
+  · intro e he
+    obtain ⟨p, hp, rfl⟩ := List.mem_map.1 he
+    exact ⟨p.2, hp, rfl, rfl, fun x hx => ⟨hx.1, Nat.lt_of_lt_of_le hx.2 (Nat.add_le_add_left (le_pow2ceil p.2.size) _)⟩⟩
+  · intro hacc
+    have hp := List.pairwise_map.1 (accepted_regions_pairwise_disjoint_windows _ hacc)
+    have hf := hp.sublist (List.filter_sublist (p := fun p => !p.2.linker) (l := regions))
+    unfold ldRegions
+    rw [List.pairwise_map]
+    refine hf.imp_of_mem ?_
+    intro p q hpm hqm hd
+    have lp : p.2.linker = false := by simpa using (List.mem_filter.1 hpm).2
+    have lq : q.2.linker = false := by simpa using (List.mem_filter.1 hqm).2
+    rintro ⟨x, hx, hy⟩
+    exact hd lp lq x ⟨⟨hx.1, Nat.lt_of_lt_of_le hx.2 (Nat.add_le_add_left (le_pow2ceil p.2.size) _)⟩,
+                      ⟨hy.1, Nat.lt_of_lt_of_le hy.2 (Nat.add_le_add_left (le_pow2ceil q.2.size) _)⟩⟩
+
+/-- Non-vacuity (rom, sram, csr accepted: three disjoint linker lines), and the negative witness for the `linker=False`
+    restriction: a `linker=True` region inside the ROM is accepted by the build and printed, overlapping the ROM's line. -/
+example :
+    ldRegions [(0, (⟨0, 0x300, true, false, true⟩ : Region)), (1, ⟨0x10000000, 0x2000, true, false, true⟩),
+               (2, ⟨0xf0000000, 0x10000, false, false, true⟩)] = [(0, 0, 0x300), (1, 0x10000000, 0x2000), (2, 0xf0000000, 0x10000)] ∧
+    anyOverlap [⟨0, 0x300, true, false, true⟩, ⟨0x10000000, 0x2000, true, false, true⟩, ⟨0xf0000000, 0x10000, false, false, true⟩] = false ∧
+    anyOverlap [⟨0, 0x8000, true, false, true⟩, ⟨0x4000, 0x100, true, true, true⟩] = false ∧
+    ldOverlap ((0 : Nat), 0, 0x8000) (1, 0x4000, 0x100) := by
+  refine ⟨by decide +kernel, by decide +kernel, by decide +kernel, ⟨0x4000, by decide⟩⟩
 
 end regions
 
